@@ -263,6 +263,10 @@ func (f *Font) Widths() []float64 {
 		}
 		return widths
 	case *glyf.Outlines:
+		if outlines.Widths == nil {
+			// no horizontal metrics: all advance widths are zero
+			return widths
+		}
 		for i := range widths {
 			widths[i] = float64(outlines.Widths[i])
 		}
